@@ -183,6 +183,27 @@ func (c *Ctx) prodEvents(loc ssa.Value) (evs []*prodEvent, nonZeroWhole int) {
 		}
 	}
 	sort.Slice(evs, func(i, j int) bool { return evs[i].pos < evs[j].pos })
+	// one literal that sets some fields, completed by plain assignments to the
+	// other fields of the same variable (v := T{a: x}; v.b = y): one production,
+	// provided no field is set twice
+	if len(evs) == 2 && (evs[0].lit != nil) != (evs[1].lit != nil) {
+		lit, rest := evs[0], evs[1]
+		if lit.lit == nil {
+			lit, rest = rest, lit
+		}
+		disjoint := true
+		for f, vs := range rest.fields {
+			if len(vs) != 1 || len(lit.fields[f]) > 0 {
+				disjoint = false
+			}
+		}
+		if disjoint {
+			for f, vs := range rest.fields {
+				lit.fields[f] = vs
+			}
+			evs = []*prodEvent{lit}
+		}
+	}
 	return
 }
 
